@@ -10,8 +10,9 @@ a new message after each read-out; AES-CBC decryption undoes encryption on whole
 `Spec.md5` is RFC 1321 transcribed independently of the source (padding, block splitting, the 64
 operations with the RFC's own tables); `md5_compress_eq_rfc1321` shows that the compression function
 assembled from the translated `SET(...)` lines, `T1..T64`, `F/G/H/I` and `ROTATE_LEFT` is that
-function.  `sha1Hash` is `Spec.mdHash` (pad, split, fold — written from the standard) over the
-compression function assembled from the translated `sha1::process_block()`.
+function.  Likewise `Spec.sha1` is FIPS 180-4 transcribed independently, and
+`sha1_compress_eq_fips180` ties the translated `sha1::process_block()` to it (on 32-bit words: the
+source rotates with `^` and writes Ch/Maj with `|`, which agree with the standard's `∨`/`⊕` there).
 SHA-2 and the AES block function are OpenSSL's: they enter as the abstract lawful digest `H`
 (`hmac_eq_rfc2104`) and the abstract block permutation `E`/`D` (`cbc_*`).
 -/
@@ -108,18 +109,31 @@ def sha1Laws (block0 : Bytes) (h : block0.length = 64) : HashLaws (sha1Obj block
   block_ok := trivial
   ok_mono := fun _ _ _ _ => trivial
 
-/-- every way of feeding a message to a fresh (or re-initialised) SHA-1 object gives the SHA-1 of the
-concatenation (bit length taken modulo 2^64, as the spec does beyond the standard's domain),
-independent of stale block content -/
+/-- `sha1::process_block()` as translated (byte-to-word lines, schedule, the four f/k arms, rotates,
+final additions) is the compression function of FIPS 180-4 §6.1.2 on chaining values of 32-bit words -/
+theorem sha1_compress_eq_fips180 (h0 h1 h2 h3 h4 : Nat) (blk : Bytes)
+    (hw : h0 < 2 ^ 32 ∧ h1 < 2 ^ 32 ∧ h2 < 2 ^ 32 ∧ h3 < 2 ^ 32 ∧ h4 < 2 ^ 32) :
+    sha1ProcessBlock [h0, h1, h2, h3, h4] blk = Spec.sha1Compress [h0, h1, h2, h3, h4] blk :=
+  sha1ProcessBlock_eq h0 h1 h2 h3 h4 blk hw
+
+example : (0x67452301 : Nat) < 2 ^ 32 ∧ (0xefcdab89 : Nat) < 2 ^ 32 := by decide
+
+theorem sha1Hash_eq : sha1Hash = Spec.sha1 := funext sha1Hash_eq_spec
+
+/-- every way of feeding a message to a fresh (or re-initialised) SHA-1 object gives the FIPS 180-4
+SHA-1 of the concatenation (bit length taken modulo 2^64, as `Spec.pad` does beyond the standard's
+domain), independent of stale block content -/
 theorem sha1_stream_eq_spec (block0 : Bytes) (h : block0.length = 64) (chunks : List Bytes) :
-    (sha1Readout (chunks.foldl sha1Append (sha1Reset block0))).1 = sha1Hash chunks.flatten := by
+    (sha1Readout (chunks.foldl sha1Append (sha1Reset block0))).1 = Spec.sha1 chunks.flatten := by
   have hi := sha1_foldl_inv chunks _ [] (sha1Reset_inv block0 h)
   rw [List.nil_append] at hi
+  rw [← sha1Hash_eq]
   exact (sha1Readout_spec _ _ hi (sha1_hlen _)).1
 
 theorem sha1_session_eq_spec (block0 : Bytes) (h : block0.length = 64) (msgs : List (List Bytes)) :
-    (sha1Obj block0).session (sha1Obj block0).fresh msgs = msgs.map fun cs => sha1Hash cs.flatten :=
-  (sha1Laws block0 h).session msgs _ (sha1Laws block0 h).fresh (fun _ _ _ _ => trivial)
+    (sha1Obj block0).session (sha1Obj block0).fresh msgs = msgs.map fun cs => Spec.sha1 cs.flatten := by
+  rw [← sha1Hash_eq]
+  exact (sha1Laws block0 h).session msgs _ (sha1Laws block0 h).fresh (fun _ _ _ _ => trivial)
 
 /-! ## HMAC -/
 
@@ -139,8 +153,9 @@ theorem hmac_md5_eq_rfc2104 (buf0 : Bytes) (h : buf0.length = 64) (key : Bytes) 
 
 theorem hmac_sha1_eq_rfc2104 (block0 : Bytes) (h : block0.length = 64) (key : Bytes) (msgs : List (List Bytes)) :
     (hmacObj (sha1Obj block0) key).session (hmacNew (sha1Obj block0) key) msgs =
-      msgs.map fun cs => Spec.hmac sha1Hash 64 key cs.flatten :=
-  hmac_eq_rfc2104 _ _ _ (sha1Laws block0 h) key trivial msgs (fun _ _ _ _ => trivial)
+      msgs.map fun cs => Spec.hmac Spec.sha1 64 key cs.flatten := by
+  rw [← sha1Hash_eq]
+  exact hmac_eq_rfc2104 _ _ _ (sha1Laws block0 h) key trivial msgs (fun _ _ _ _ => trivial)
 
 /-! ## CBC -/
 
